@@ -591,21 +591,27 @@ mutual
       | none => normFields pool wire fields rest
 end
 
-/-- The wire format of prost / prost-reflect as a parameter.  `encode` and `decode` are
-    `DynamicMessage::encode` and `DynamicMessage::decode(descriptor, bytes)`; the assumed law is
-    that decoding what was encoded gives back the message up to `normalize`. -/
+/-- The wire format of prost / prost-reflect as a parameter.  `Wire` stands for the payload bytes,
+    `encode` and `decode` for `DynamicMessage::encode` and `DynamicMessage::decode(descriptor, bytes)`
+    (first argument: the message type).  The assumed law: decoding what was encoded gives back the
+    message up to `normalize` (fields that `has_field` does not see are not written; a single
+    value in a repeated field comes back as a one-element list).  The law is sampled on the real
+    crate by the `o.c26.wire` oracle.  It is stated for every abstract message; abstract messages
+    that no `DynamicMessage` realises (integers outside the carrier type, ill-typed fields) are
+    covered only for uniformity. -/
 structure WireCodec (pool : Pool) where
-  encode : Nat → PFields → List Nat
-  decode : Nat → List Nat → Option PFields
+  Wire : Type
+  encode : Nat → PFields → Wire
+  decode : Nat → Wire → Option PFields
   law : ∀ (r : Nat) (fs : PFields) (md : MsgDesc), pool.msg r = some md →
     decode r (encode r fs) = some (normFields pool true md.fields fs)
 
 /-- `encode_proto` -/
-def encodeProto (P : Prims) (pool : Pool) (W : WireCodec pool) (r : Nat) (v : Value) : Option (List Nat) :=
+def encodeProto (P : Prims) (pool : Pool) (W : WireCodec pool) (r : Nat) (v : Value) : Option W.Wire :=
   (fromValue P true pool r v).map (W.encode r)
 
 /-- `parse_proto` -/
-def parseProto (pool : Pool) (W : WireCodec pool) (r : Nat) (bytes : List Nat) : Option Value :=
+def parseProto (pool : Pool) (W : WireCodec pool) (r : Nat) (bytes : W.Wire) : Option Value :=
   match W.decode r bytes with
   | some fs => toValueMsg pool r fs
   | none => none
